@@ -33,33 +33,38 @@ Definition oobs_eqb (a b : oobs) : bool :=
 (** every token seen for the first time was issued inside the bracket of its operation *)
 Fixpoint brackets_ok (seen : list token) (ops : list op) (ts : list (Z * Z)) (obs : list oobs) : bool :=
   match ops, ts, obs with
-  | OExec _ _ now :: ops', (t0, t1) :: ts', XToken t _ :: obs' =>
+  | OExec _ _ _ now _ :: ops', (t0, t1) :: ts', XToken t _ :: obs' =>
       (existsb (same_jti t) seen || ((unix t0 <=? unix now)%Z && (unix now <=? unix t1)%Z))
       && brackets_ok (t :: seen) ops' ts' obs'
   | _ :: ops', _ :: ts', _ :: obs' => brackets_ok seen ops' ts' obs'
   | _, _, _ => true
   end.
 
-(** [impl_fixed]: is the repair of C16-F1 expected in the implementation (which variant of
-    the model is compared).  The property predicate is the specification either way. *)
-Definition check (impl_fixed : bool) (c : case) : verdict :=
-  let '(cr, obs) := run impl_fixed (c_cfg c) (c_file c) (c_ops c) in
+(** [impl]: which repairs the implementation is expected to have (which variant of the
+    model it is compared with).  The property predicate is [run_prop] — what the property
+    statement fixes, from the specification — on the implementation's observation, either way. *)
+Definition check (impl : fixes) (c : case) : verdict :=
+  let '(cr, obs) := run impl (c_cfg c) (c_file c) (c_ops c) in
   {| v_corr := res_unit_eqb cr (c_created c) && list_eqb oobs_eqb obs (c_obs c);
-     v_prop := run_ok (c_cfg c) (c_file c) (c_ops c) (c_created c) (c_obs c)
+     v_prop := run_prop (c_cfg c) (c_file c) (c_ops c) (c_created c) (c_obs c)
                && brackets_ok [] (c_ops c) (c_times c) (c_obs c);
-     v_guards := guards [(1%Z, guard_F1 (c_cfg c) (c_file c) (c_ops c) && negb impl_fixed)] |}.
+     v_guards := guards [(1%Z, guard_F1 (c_cfg c) (c_file c) (c_ops c) && negb (fx_F1 impl));
+                         (2%Z, guard_F2 (c_cfg c) (c_ops c) && negb (fx_F2 impl))] |}.
 
 (* short constructors for the generated case files *)
 Definition K n k s := {| k_id := n; k_kind := k; k_size := s |}.
 Definition RE k x g ch cok uok :=
   {| r_key := k; r_xkid := x; r_genkid := g; r_chain := ch; r_chain_ok := cok; r_usage_ok := uok |}.
-Definition CF kid name ttl cl cch bef aft :=
-  {| c_keyid := kid; c_name := name; c_ttl := ttl; c_claims := cl; c_cache := cch; c_before := bef; c_after := aft |}.
+Definition CF kid name ttl cl cch twin bef aft :=
+  {| c_keyid := kid; c_name := name; c_ttl := ttl; c_claims := cl; c_cache := cch; c_twin := twin;
+     c_before := bef; c_after := aft |}.
+Definition FX a b := {| fx_F1 := a; fx_F2 := b |}.
+Definition RQ s o a := {| q_sub := s; q_out := o; q_attr := a |}.
 Definition OV ttl cl unk := {| o_ttl := ttl; o_claims := cl; o_unknown := unk |}.
 Definition JW kid alg key use certs :=
   {| j_kid := kid; j_alg := alg; j_key := key; j_use := use; j_certs := certs |}.
-Definition TK alg kid typ key cl :=
-  {| t_alg := alg; t_kid := kid; t_typ := typ; t_key := key; t_claims := cl |}.
+Definition TK alg kid typ key cl hdr :=
+  {| t_alg := alg; t_kid := kid; t_typ := typ; t_key := key; t_claims := cl; t_hdr := hdr |}.
 Definition CS cfg f ops ts cr obs :=
   {| c_cfg := cfg; c_file := f; c_ops := ops; c_times := ts; c_created := cr; c_obs := obs |}.
 
